@@ -77,6 +77,13 @@ Handler == /\ Is("Handler") /\ open /\ pc \in {"recv", "mw"} /\ entered = cfg.ap
            /\ pc' = "handler" /\ nt' = TRUE
            /\ l' = l + 1 /\ UNCHANGED <<cfg, rq, out, entered, left, tmpl, accepted, cur, open, stats>>
 
+\* C04 inside the pipeline: the scripted handler calls Parse(); an operation that declares no parameter of its own
+\* has nothing that could be missing or malformed (mayFail = FALSE: the spec declares no parameters and no path
+\* variables at all), so Parse must succeed - whatever the security schemes of the operation read from the request
+Parsed == /\ Is("Parsed") /\ open /\ pc = "handler"
+          /\ (Ev.ok \/ Ev.mayFail)
+          /\ l' = l + 1 /\ UNCHANGED <<cfg, rq, out, entered, left, tmpl, accepted, cur, open, nt, pc, stats>>
+
 NotFound == /\ Is("NotFound") /\ open /\ pc = "recv" /\ entered = 0
             /\ ~SpecHit(cfg, rq) /\ NotFoundT \in Out
             /\ Ev.custom = cfg.api.notFound
@@ -122,7 +129,7 @@ Done == /\ Is("Done") /\ open
         /\ pc' = "done" /\ nt' = (nt \/ Ev.status = 401)
         /\ l' = l + 1 /\ UNCHANGED <<cfg, rq, out, entered, left, tmpl, accepted, cur, open, stats>>
 
-Step == Config \/ Req \/ MwEnter \/ Auth \/ Handler \/ NotFound \/ Cors \/ Spec \/ MwLeave \/ Done
+Step == Config \/ Req \/ MwEnter \/ Auth \/ Handler \/ Parsed \/ NotFound \/ Cors \/ Spec \/ MwLeave \/ Done
 
 RECURSIVE NextBoundary(_)
 NextBoundary(k) == IF k > Len(Trace) THEN k
